@@ -195,7 +195,7 @@ def run(ctx):
         # a message object that decoded something before: longer form first, then every shorter
         # presence pattern / shorter variable part (classes with Conditional fields keep the old
         # attribute when the condition is false in the original code too: not claimed)
-        if not any(type(f) is M.Conditional for f in fs):
+        if not any(isinstance(f, M.Conditional) for f in fs):
             env_full = U.gen_in_range(cls, rng, 'ones', nopt)
             first = U.encode_env(cls, env_full)
             seconds = [U.encode_env(cls, U.gen_in_range(cls, rng, 'random', p)) for p in range(nopt + 1)]
